@@ -22,6 +22,7 @@ RULE = (
     'jumps being jumps of the whole.  Non-trivial = n_parts >= 2 and events in at least two different parts; '
     'distinct = SHA-1 of (states, n_parts).'
 )
+RULE += ' Added in rounds 6-10: nested splits; re-presented event tables; every Trajectory.split part round-tripped through displacements; objects whose diffusing-species trajectory is not the species filter of the full trajectory.'
 ASSUMPTIONS = [
     "Jumps.split / rates raising ValueError('No jumps found') is accepted iff no jump of the whole lies completely inside some part's time bin (documented API behaviour)",
     'Trajectory.split without equal_parts is taken to tile the source without gaps; at most one trailing frame may stay unused (the implementation drops the last frame)',
